@@ -62,13 +62,18 @@ def run(ctx, prop):
     try:
         f = os.path.join(d, "Check.lean")
         open(f, "w").write(src + tmpl)
-        lake = shutil.which("lake")
-        if lake is None or not os.path.isdir(MATHLIB):
+        lean = shutil.which("lean")
+        if lean is None or not os.path.isdir(MATHLIB):
             for n, what in THEOREMS[prop]:
                 ctx._rec("lean/%s: %s" % (n, what), "undecided", "lean4+mathlib", 0.0, "lean / mathlib not available")
             return
+        # the search path lake would set, computed here: nothing is written into the Mathlib checkout
+        import glob
+        lp = sorted(glob.glob(os.path.join(MATHLIB, ".lake", "packages", "*", ".lake", "build", "lib", "lean"))) + \
+            [os.path.join(MATHLIB, ".lake", "build", "lib", "lean")]
+        env = dict(os.environ, LEAN_PATH=":".join(lp))
         try:
-            r = subprocess.run([lake, "env", "lean", f], cwd=MATHLIB, capture_output=True, text=True, timeout=900)
+            r = subprocess.run([lean, f], cwd=d, env=env, capture_output=True, text=True, timeout=900)
             outp = r.stdout + r.stderr
             rc = r.returncode
         except subprocess.TimeoutExpired:
